@@ -29,6 +29,41 @@ from .npshim import SymNP
 
 
 _MISSING = object()
+_ACTIVE: list = []
+
+
+def _restore(saved, saved_attr):
+    for name, old in saved.items():
+        if old is not None:
+            sys.modules[name] = old
+        else:
+            sys.modules.pop(name, None)
+    for (parent, leaf), (pmod, old) in saved_attr.items():
+        if old is _MISSING:
+            pmod.__dict__.pop(leaf, None)
+        else:
+            setattr(pmod, leaf, old)
+
+
+def real_modules():
+    """context manager for replays: temporarily put the genuine acryo modules back while loaded shims are installed"""
+    import contextlib
+
+    @contextlib.contextmanager
+    def cm():
+        stack = list(_ACTIVE)
+        for (_, saved, saved_attr) in reversed(stack):
+            _restore(saved, saved_attr)
+        try:
+            yield
+        finally:
+            for (loaded, saved, saved_attr) in stack:
+                for name, mod in loaded.items():
+                    sys.modules[name] = mod
+                for (parent, leaf), (pmod, old) in saved_attr.items():
+                    setattr(pmod, leaf, loaded[parent + "." + leaf])
+
+    return cm()
 
 
 def _identity_lru_cache(*a, **kw):
@@ -73,6 +108,32 @@ def default_overrides():
 
 class Loaded(dict):
     """dict modname -> module, with attribute-style access by last component."""
+
+    def installed(self):
+        """context manager: make the loaded modules visible in sys.modules (and as attributes of their parent
+        packages) while symbolic code runs, so that imports executed at call time (`from .core import Molecules`
+        inside a method) bind to the shim versions"""
+        import contextlib
+
+        @contextlib.contextmanager
+        def cm():
+            saved, saved_attr = {}, {}
+            _ACTIVE.append((self, saved, saved_attr))
+            try:
+                for name, mod in self.items():
+                    saved[name] = sys.modules.get(name)
+                    sys.modules[name] = mod
+                    parent, _, leaf = name.rpartition(".")
+                    pmod = saved.get(parent) or sys.modules.get(parent)
+                    if pmod is not None and leaf and parent not in self:
+                        saved_attr[(parent, leaf)] = (pmod, pmod.__dict__.get(leaf, _MISSING))
+                        setattr(pmod, leaf, mod)
+                yield self
+            finally:
+                _ACTIVE.pop()
+                _restore(saved, saved_attr)
+
+        return cm()
 
     def __getattr__(self, name):
         for k, v in self.items():
